@@ -167,10 +167,58 @@ func c04History(c *core.Case) {
 	}
 }
 
+// c04VeryLong: 2^15 .. 2^17 + 3 eligible IDs at one zoom pair (each is its own unit cell), the eight children of one
+// target voxel placed at the very end of the list (complete fill: must merge), seven children of another one in the
+// middle (must stay).
+func c04VeryLong(c *core.Case) {
+	r := c.R
+	H, V := r.Range(3, 28), r.Range(3, 28)
+	n := veryLongLen(r)
+	seen := map[ref.ID]bool{}
+	var ids []ref.ID
+	for len(ids) < n-8 {
+		a := genID(r, H+1, H+1, V+1, V+1)
+		if !seen[a] {
+			seen[a] = true
+			ids = append(ids, a)
+		}
+	}
+	T := genID(r, H, H, V, V)
+	U := ref.Shift(T, 1, 0, 0)
+	kidsU := ref.ChangeOne(U, H+1, V+1)
+	copy(ids[n/2:], kidsU[:7])
+	ids = append(ids, ref.ChangeOne(T, H+1, V+1)...)
+	in := ref.Exts(ids)
+	c.Tag("very-long-list")
+	c.NonTrivial()
+	c.KS(T.Ext())
+	c.KI(int64(n), H, V)
+	var got []string
+	var err error
+	c.Desc = func() any {
+		return map[string]any{"scenario": "very long list", "len": len(in), "hZoom": H, "vZoom": V, "complete_fill_at_the_end_of": T.Ext(), "seven_children_of": U.Ext(), "result_len": len(got), "error": fmt.Sprint(err)}
+	}
+	got, err = integrate.MergeExtendedSpatialIds(in, H, V)
+	c.Call()
+	if err != nil {
+		c.Fail("merge-error", nil, "merge of %d valid IDs returned %v", len(in), err)
+		return
+	}
+	want, _, _ := c04Expect(ids, H, V)
+	gs, dup := ref.SetOfExt(got)
+	if missing, extra, same := ref.SameSet(gs, want); !same || dup {
+		c.Fail("merge-set-very-long-list", nil, "merge of %d IDs at (%d,%d) -> (%d,%d): %d results for %d expected, missing %v, unexpected %v, duplicates %v", len(in), H+1, V+1, H, V, len(gs), len(want), missing, extra, dup)
+	}
+}
+
 func runC04(c *core.Case) {
 	r := c.R
 	if c.I >= c04Directed && r.P(0.0015) {
 		c04History(c)
+		return
+	}
+	if c.I >= c04Directed && (r.P(0.0002) || (c.Tier == "thorough" && r.P(0.0002))) {
+		c04VeryLong(c)
 		return
 	}
 	var ids []ref.ID
